@@ -28,6 +28,7 @@ type k2Batch struct {
 	FailOn   [][2]string // (function, payload) pairs that make fallible custom functions fail
 	ValModes int         // number of values per method
 	Share    int
+	Race     bool
 	Spec     string // "structural": ask the driver to compare with Gv.Spec.specMap
 }
 
@@ -47,6 +48,7 @@ type k2Result struct {
 	Generated   int
 	Unsupported int
 	BuildErrors []string
+	Races       []string
 	GenOutcomes map[string]int
 }
 
@@ -98,7 +100,7 @@ func runK2(e *env, name string, batches []*k2Batch) (*k2Result, error) {
 				fail(fmt.Errorf("%s batch %d does not load: %s", name, bi, truncate(b.DocsErr.Error(), 1500)))
 				return
 			}
-			ex, err := k2.Prepare(root, module, module+"/p", b)
+			ex, err := k2.Prepare(root, module, module+"/p", b, kb.Race)
 			if err != nil {
 				fail(err)
 				return
@@ -168,6 +170,12 @@ func runK2(e *env, name string, batches []*k2Batch) (*k2Result, error) {
 			}
 			answers, err := ex.Run(lines)
 			if err != nil {
+				if strings.Contains(err.Error(), "DATA RACE") {
+					mu.Lock()
+					res.Races = append(res.Races, fmt.Sprintf("batch %s#%d: %v", kb.Tag, bi, err))
+					mu.Unlock()
+					return
+				}
 				fail(fmt.Errorf("%s batch %d: %v", name, bi, err))
 				return
 			}
